@@ -3,6 +3,7 @@
 (* after every step the projection of the real file must equal the model's.                                       *)
 (* Events: [e |-> "reset", layout] | [e |-> "write", s, size, ok, read, present, cai_n, cai_ok, outside, media]     *)
 (*         | [e |-> "remove", ok, read, present, remove_equal, usable, media]                                      *)
+(* foreign: "yes" | "no" | "na" -- the other application's structure added to the asset is still there exactly once. *)
 (* media / remove_equal are "yes" | "no" | "unknown" (no walker for the format).                                   *)
 EXTENDS Naturals, Sequences, FiniteSets, TLC, Json, IOUtils
 Rec == ndJsonDeserialize(IOEnv.TRACE)
@@ -11,7 +12,8 @@ tvars == <<l, hasStore, last, lastSize, bad>>
 Ev == Rec[l]
 TInit == l = 1 /\ hasStore = FALSE /\ last = "none" /\ lastSize = 0 /\ bad = <<>>
 Flag(S) == bad' = IF S = {} THEN bad ELSE Append(bad, <<l, S>>)
-TReset == Ev.e = "reset" /\ hasStore' = (Ev.layout = "manifest") /\ last' = (IF Ev.layout = "manifest" THEN "old" ELSE "none") /\ lastSize' = 0 /\ UNCHANGED bad
+WithOld(layout) == layout \in {"manifest", "foreign-manifest"}
+TReset == Ev.e = "reset" /\ hasStore' = WithOld(Ev.layout) /\ last' = (IF WithOld(Ev.layout) THEN "old" ELSE "none") /\ lastSize' = 0 /\ UNCHANGED bad
 SetOf(s) == {s[i] : i \in 1..Len(s)}
 TWrite ==
   /\ Ev.e = "write"
@@ -22,6 +24,7 @@ TWrite ==
               \cup (IF Ev.cai_n > 1 THEN {"C08:several-manifest-regions"} ELSE {})
               \cup (IF Ev.cai_n = 1 /\ ~Ev.cai_ok THEN {"C08:manifest-region-wrong"} ELSE {})
               \cup (IF hasStore /\ Ev.cai_n = 1 /\ lastSize = Ev.size /\ last # Ev.s /\ Ev.outside > 0 THEN {"C08:same-size-replace-not-local"} ELSE {})
+              \cup (IF Ev.foreign = "no" THEN {"C09:foreign-data-lost"} ELSE {})
               \cup (IF Ev.media = "no" THEN {"C09:media-changed"} ELSE {}) )
 TRemove ==
   /\ Ev.e = "remove"
@@ -31,6 +34,7 @@ TRemove ==
               \cup (IF Ev.markers /\ Ev.present # <<>> THEN {"C07:store-bytes-remain"} ELSE {})
               \cup (IF ~Ev.usable THEN {"C07:asset-rejected-after-remove"} ELSE {})
               \cup (IF Ev.remove_equal = "no" THEN {"C09:remove-not-idempotent"} ELSE {})
+              \cup (IF Ev.foreign = "no" THEN {"C09:foreign-data-lost"} ELSE {})
               \cup (IF Ev.media = "no" THEN {"C09:media-changed"} ELSE {}) )
 TNext == l <= Len(Rec) /\ l' = l + 1 /\ (TReset \/ TWrite \/ TRemove)
 TSpec == TInit /\ [][TNext]_tvars
